@@ -83,17 +83,19 @@ def generate(seed, tier, batch):
     total = sum(N)
     npar = r.randint(1, 4)
     params = []
-    for _ in range(npar):
+    for k_ in range(npar):
         kind = r.random()
-        arr = [rnd(r, 0, 1.4) if kind < 0.8 else 0.0 for _ in range(T)]
+        # array 0 holds amplitudes (squeezing / displacement: kept small, a mode is squeezed again in every bin it lives), the others angles
+        hi_ = 0.35 if k_ == 0 else 1.4
+        arr = [rnd(r, 0, hi_) if kind < 0.8 else 0.0 for _ in range(T)]
         if r.random() < 0.25:
             arr[r.randrange(T)] = 0.0
         params.append(arr)
 
     def par(scale=1.0):
         if r.random() < 0.7:
-            return {"tdm": r.randrange(npar)}
-        return rnd(r, 0, scale)
+            return {"tdm": 0 if scale < 1.0 else r.randrange(npar)}
+        return rnd(r, 0, min(scale, 0.35) if scale < 1.0 else scale)
 
     ops = []
     for _ in range(r.randint(1, 2 + total)):
@@ -106,7 +108,7 @@ def generate(seed, tier, batch):
             a, b = r.sample(range(total), 2)
             ops.append({"op": "BSgate", "p": [par(1.5), rnd(r, 0, 3)], "m": [a, b]})
         else:
-            ops.append({"op": "Dgate", "p": [par(0.8), rnd(r, 0, 3)], "m": [r.randrange(total)]})
+            ops.append({"op": "Dgate", "p": [par(0.6), rnd(r, 0, 3)], "m": [r.randrange(total)]})
     # the leading mode of every band is measured, in band order, as the last commands of the bin
     for j in range(nb):
         ops.append({"op": "MeasureHomodyne", "p": [par(3.0)], "m": [starts[j]]})
@@ -361,9 +363,13 @@ def execute(script, w):
             if len(evs) != nbins * nb:
                 w.violation("loop", "number-of-measurements", {"got": len(evs), "want": nbins * nb, "history": script["history"]}, hist_feats)
                 return
-            xi = []
-            vals = []
+            # sequential conditioning of the reference joint state, one pulse at a time, on (x, p) with the documented finite-squeezing
+            # homodyne noise diag(eps^2, 1/eps^2) and the outcomes handed back to the library (injected value, 0.0).  2x2 blocks keep
+            # this well conditioned (a single solve mixing eps^2 and 1/eps^2 is not).
+            cmu, ccov = mu.copy(), cov.copy()
             seen = set()
+            ncond = 0
+            maxval = 0.0
             for e in evs:
                 pz = tuple(e["pulse"])
                 if pz not in pulses or pz in seen:
@@ -371,23 +377,23 @@ def execute(script, w):
                     return
                 seen.add(pz)
                 i = pulses[pz]
-                if xi:
-                    A = cov[np.ix_(xi, xi)] + EPS2 * np.eye(len(xi))
-                    b = cov[xi, i]
-                    wv = np.linalg.solve(A, b)
-                    m = mu[i] + wv @ (np.array(vals) - mu[xi])
-                    v = cov[i, i] - b @ wv
-                else:
-                    m, v = mu[i], cov[i, i]
-                v += EPS2
-                # the library updates the covariance pulse by pulse; rounding grows with the (anti-squeezed) variance
-                tolm = 1e-6 * (1 + abs(m) + (float(np.max(np.abs(vals))) if vals else 0.0)) * (1 + v)
-                if abs(e["mean"] - m) > tolm or abs(e["var"] - v) > 1e-5 * (1 + v):
+                B = [i, i + nmodes]
+                m = cmu[i]
+                v = ccov[i, i] + EPS2
+                # rounding in both computations is relative to the largest (anti-squeezed) entries of the joint covariance
+                big = 1 + float(np.max(np.abs(cov))) / 20
+                tolm = 2e-6 * (1 + abs(m) + maxval) * (1 + v) * big
+                if abs(e["mean"] - m) > tolm or abs(e["var"] - v) > 1e-5 * (1 + v) * big:
                     w.violation("loop", "conditional-distribution-of-pulse", {"pulse": pz, "library_mean": e["mean"], "reference_mean": m, "library_var": e["var"],
-                                                                              "reference_var": v, "n_conditioned_on": len(xi), "history": script["history"]}, hist_feats)
+                                                                              "reference_var": v, "n_conditioned_on": ncond, "history": script["history"]}, hist_feats)
                     return
-                xi.append(i)
-                vals.append(e["v"])
+                S = ccov[np.ix_(B, B)] + np.diag([EPS2, 1.0 / EPS2])
+                K = ccov[:, B] @ np.linalg.inv(S)
+                cmu = cmu + K @ (np.array([e["v"], 0.0]) - cmu[B])
+                ccov = ccov - K @ ccov[B, :]
+                ccov = (ccov + ccov.T) / 2
+                ncond += 1
+                maxval = max(maxval, abs(e["v"]))
             # oracle 4: samples[shot, band, bin] is the outcome of exactly that pulse
             smp = np.asarray(res.samples)
             hb = math.sqrt(sf.hbar / 2)
